@@ -14,11 +14,11 @@ theorem msg_tx_hash_is_spec (H : List UInt8 → List UInt8) (c : Cell) (hwf : Sp
   have e := reprHash_eq_spec H c hwf hd
   constructor
   · intro m hm
-    have := C16.msg_hash_is_cell_hash H c m hm
+    have := C16.msg_hash_tree_level H c m hm
     rw [e] at this
     injection this with this; exact this.symm
   · intro t ht
-    obtain ⟨h1, h2⟩ := C16.tx_hash_is_cell_hash H c t ht
+    obtain ⟨h1, h2⟩ := C16.tx_capture_tree_level H c t ht
     rw [e] at h1
     injection h1 with h1; exact ⟨h1.symm, h2⟩
 
